@@ -159,7 +159,7 @@ func init() {
 	})
 	register(&Property{
 		ID: "C03",
-		Explanation: "Decides necessary conditions of corruption reporting: (mac-before-decrypt) Key.Open decrypts and returns nil only after poly1305Verify succeeded; (open-error-used) at every Key.Open call site the error is examined and no nil-error return is reachable from a failed Open; (nil-only-after-hash) blob and file load paths return success only after the hash comparison; (accumulator) errors appended to the local error lists of checkPackInner, checker.checkTree, loadSnapshotTreeIDs and Checker.LoadIndex reach the result or a len()!=0 test before any success return; (checkpack-guards) checkPackInner succeeds only after download, sha256-of-stream == pack ID and header decode; (check-exit) in runCheck every nil-error return lies on the false edge of one errors-found flag, every error received from the three checker channels sets that flag on every path (sole exception: orphaned packs) and a non-empty LoadIndex error list forces failure; (cache-result-provenance) the blob cache used by mount and dump (bloblru.GetOrCompute) returns success only on a cache hit or with the results of the caller's own computation, returns the cached blob on a hit and never inserts the result of a failed computation — a waiter for a parallel download that failed must not report success (added after a seeded change). Not decided: that every byte flip is detected (strength of Poly1305/SHA-256, zstd framing).",
+		Explanation: "Decides necessary conditions of corruption reporting: (mac-before-decrypt) Key.Open decrypts and returns nil only after poly1305Verify succeeded; (open-error-used) at every Key.Open call site the error is examined and no nil-error return is reachable from a failed Open; (nil-only-after-hash) blob and file load paths return success only after the hash comparison; (accumulator) errors appended to the local error lists of checkPackInner, checker.checkTree, loadSnapshotTreeIDs and Checker.LoadIndex reach the result or a len()!=0 test before any success return; (checkpack-guards) checkPackInner succeeds only after download, sha256-of-stream == pack ID and header decode; (check-exit) in runCheck every nil-error return lies on the false edge of one errors-found flag, every error received from the three checker channels sets that flag on every path (sole exception: orphaned packs) and a non-empty LoadIndex error list forces failure; (cache-result-provenance) the blob cache used by mount and dump (bloblru.GetOrCompute) returns success only on a cache hit or with the results of the caller's own computation, returns the cached blob on a hit and never inserts the result of a failed computation — a waiter for a parallel download that failed must not report success (added after a seeded change); (load-errors-propagate) at each of the ~45 call sites of the integrity-checked read primitives (LoadRaw, LoadUnpacked, LoadBlob, loadBlob, LoadBlobsFromPack, LoadJSONUnpacked, LoadTree, LoadSnapshot, directly or through the restic interfaces) the error is bound and, from the edge on which it is non-nil, no return is reached unless the error was returned, reported or handed to a callback/channel/structure — one named exception (repair packs keeps a copy of partially readable packs); the accumulator rule also requires that a captured error list is only extended, never replaced (both clauses added after the mutant sweep showed `return nil` variants surviving). Not decided: that every byte flip is detected (strength of Poly1305/SHA-256, zstd framing).",
 		Assumptions: commonAssumptions,
 		Technique:   "static analysis: CFG edge cuts + path-sensitive flag/nil flow + error-accumulator discipline (go/ssa)",
 		AllConfigs:  true,
@@ -172,11 +172,18 @@ func init() {
 			ruleAccumulator(c, "accumulator", "internal/checker.loadSnapshotTreeIDs")
 			ruleAccumulator(c, "accumulator", pkgRepo+".(*Checker).LoadIndex")
 			ruleCheckPackGuards(c)
+			ruleLoadErrorsPropagate(c)
 			ruleCheckExit(c, false)
 			ruleCheckFreshCache(c)
 			ruleCacheResultProvenance(c)
 		},
 		Controls: []Control{
+			{Name: "failed-raw-load-returns-success", File: "internal/repository/repository.go",
+				Old: "	buf, err := r.LoadRaw(ctx, t, id)\n	if err != nil {\n		return nil, err\n	}", New: "	buf, err := r.LoadRaw(ctx, t, id)\n	if err != nil {\n		return nil, nil\n	}", Rule: "load-errors-propagate"},
+			{Name: "checktree-named-result-reset", File: "internal/checker/checker.go",
+				Old: "			errs = append(errs, &Error{TreeID: id, Err: errors.New(\"node with empty name\")})\n		}\n	}\n\n	return errs\n}", New: "			errs = append(errs, &Error{TreeID: id, Err: errors.New(\"node with empty name\")})\n		}\n	}\n\n	return nil\n}", Rule: "accumulator"},
+			{Name: "unloadable-tree-skipped-in-walk", File: "internal/walker/walker.go",
+				Old: "	tree, err := data.LoadTree(ctx, repo, root)\n	err = visitor.ProcessNode(root, \"/\", nil, err)", New: "	tree, err := data.LoadTree(ctx, repo, root)\n	if err != nil {\n		tree = nil\n	}\n	err = visitor.ProcessNode(root, \"/\", nil, nil)", Rule: "load-errors-propagate"},
 			{Name: "waiter-returns-without-recheck", File: "internal/bloblru/cache.go",
 				Old: "	blob, ok = c.get(id)\n	if ok {", New: "	blob, ok = c.get(id)\n	if ok || isComputing {", Rule: "cache-result-provenance"},
 			{Name: "ignore-tree-errors-in-check", File: "cmd/restic/cmd_check.go",
